@@ -3004,6 +3004,136 @@ def r59_model_default(ctx, repo):
            key=f"{AFEM}::viscosity model fallback::sites agree")
 
 
+def _setup_defaults(ge):
+    """parameters of get_emodulus whose default is a concrete number or
+    identifier, i.e. describes one particular set-up / medium / table (a
+    None default means "not given", a boolean or a module constant is a
+    policy flag)"""
+    par = [a.arg for a in ge.args.args]
+    out = {}
+    for name, d in zip(reversed(par), reversed(ge.args.defaults)):
+        if isinstance(d, ast.Constant) and not isinstance(
+                d.value, bool) and isinstance(d.value, (int, float, str)):
+            out[name] = d.value
+        elif isinstance(d, ast.Constant) or isinstance(
+                d, (ast.Name, ast.Attribute)):
+            continue
+        else:
+            raise AnalysisError(f"get_emodulus: default of `{name}` "
+                                f"(`{short(d, 30)}`) not classified")
+    return par, out
+
+
+def _from_dataset(func, e, ds_names, depth=0):
+    """does the value depend on the dataset handed to the wrapper (its
+    parameters, or locals defined from them)?"""
+    if depth > 6:
+        raise AnalysisError(f"{func.name}: definition chain too deep")
+    for nm in names_in(e):
+        if nm in ds_names:
+            return True
+        defs = [n.value for n in walk(func) if isinstance(n, ast.Assign)
+                and any(isinstance(t, ast.Name) and t.id == nm
+                        for t in n.targets)]
+        if any(_from_dataset(func, d, ds_names, depth + 1) for d in defs):
+            return True
+    return False
+
+
+def r59_dataset_layer(ctx, repo):
+    """the ancillary-feature layer computes ds["emodulus"]: every call of
+    get_emodulus there names every parameter whose default stands for one
+    particular set-up (pixel size 0.34, channel width 20, flow rate 0.16,
+    medium, temperature 23, LUT, viscosity model) and takes it from the
+    dataset – a keyword left out means that this code path silently uses
+    the default whatever the dataset says; sibling wrappers agree"""
+    ge = repo.func(EM, "get_emodulus")
+    par, setup = _setup_defaults(ge)
+    if len(setup) < 5:
+        raise AnalysisError("get_emodulus: set-up parameters with a default "
+                            f"value: {sorted(setup)}")
+    sites = []
+    for q, f in repo.all_functions(AFEM):
+        for c in walk(f):
+            if isinstance(c, ast.Call) and last_attr(c) == "get_emodulus":
+                sites.append((q, f, c))
+    if len(sites) < 1:
+        raise AnalysisError(f"{AFEM}: no call of get_emodulus")
+    passed = {}
+    for q, f, c in sites:
+        given = {}
+        for i, a in enumerate(c.args):
+            if isinstance(a, ast.Starred) or i >= len(par):
+                raise AnalysisError(f"{q}: call `{short(c, 40)}` not "
+                                    "understood")
+            given[par[i]] = a
+        for kw in c.keywords:
+            if kw.arg is not None:
+                given[kw.arg] = kw.value
+                continue
+            d = None
+            if isinstance(kw.value, ast.Dict):
+                d = {const_str(k): v for k, v in zip(kw.value.keys,
+                                                     kw.value.values)}
+            elif isinstance(kw.value, ast.Name):
+                d = dict_literal(f, kw.value.id)
+                calls_ = [n.value for n in walk(f) if isinstance(
+                    n, ast.Assign) and len(n.targets) == 1 and txt(
+                    n.targets[0]) == kw.value.id and isinstance(
+                    n.value, ast.Call) and call_name(n.value) == "dict"
+                    and not n.value.args]
+                for dc in calls_:
+                    d.update({k.arg: k.value for k in dc.keywords})
+            if not d or None in d:
+                raise AnalysisError(f"{q}: `**{short(kw.value, 20)}` in the "
+                                    "call of get_emodulus is not a dict "
+                                    "literal")
+            given.update(d)
+        unknown = sorted(set(given) - set(par))
+        if unknown:
+            raise AnalysisError(f"{q}: get_emodulus has no parameter "
+                                f"{unknown}")
+        passed[q] = given
+        ds_names = {a.arg for a in f.args.args}
+        miss = [p_ for p_ in par if p_ in setup and p_ not in given]
+        fixed = [p_ for p_ in par if p_ in setup and p_ in given
+                 and not (isinstance(given[p_], ast.Constant)
+                          and given[p_].value is None)
+                 and not _from_dataset(f, given[p_], ds_names)]
+        ok = not miss and not fixed
+        ctx.ob("R5.9", ok,
+               f"{q} passes {', '.join(p_ for p_ in par if p_ in setup)} to "
+               "get_emodulus, each taken from the dataset (or None)" if ok
+               else (
+                   f"{q} calls get_emodulus without `{miss[0]}`: this code "
+                   f"path computes ds['emodulus'] with the default "
+                   f"{miss[0]}={setup[miss[0]]!r} whatever the dataset's "
+                   "configuration says"
+                   + ("" if len(sites) < 2 else " (the sibling wrapper "
+                      + ", ".join(q2 for q2, _, c2 in sites if c2 is not c
+                                  and any(k.arg == miss[0]
+                                          for k in c2.keywords))
+                      + " passes it)") if miss else
+                   f"{q} passes the fixed value `{short(given[fixed[0]], 30)}`"
+                   f" as `{fixed[0]}` to get_emodulus instead of a value of "
+                   "the dataset"),
+               node=c, key=f"{AFEM}::{q}::get_emodulus set-up keywords from "
+               "the dataset")
+    # siblings pass the same set of keywords
+    if len(passed) > 1:
+        sets = {q: frozenset(g) for q, g in passed.items()}
+        ok = len(set(sets.values())) == 1
+        allk = set().union(*sets.values())
+        ctx.ob("R5.9", ok,
+               f"the {len(sets)} wrappers pass the same keywords to "
+               "get_emodulus" if ok else
+               "the wrappers disagree on the keywords passed to "
+               "get_emodulus: " + "; ".join(
+                   f"{q} omits {sorted(allk - v)}" for q, v in sets.items()
+                   if allk - v), node=sites[0][2],
+               key=f"{AFEM}::get_emodulus wrappers::same keywords")
+
+
 def run(ctx):
     repo = ctx.repo
     ctx.rule("R5.1", "every in-place operation of get_emodulus acts on a "
@@ -3038,7 +3168,10 @@ def run(ctx):
     ctx.rule("R5.9", "every internal call of the viscosity functions "
              "passes on all physical parameters (medium, channel width, "
              "flow rate, temperature) that caller and callee share; the "
-             "viscosity-model fallbacks agree", minimum=9)
+             "viscosity-model fallbacks agree; the ancillary-feature "
+             "wrappers name every set-up parameter of get_emodulus that has "
+             "a concrete default and take it from the dataset",
+             minimum=12)
     m = Model(repo)
     r51(ctx, repo, m)
     r56(ctx, repo)
@@ -3048,6 +3181,7 @@ def run(ctx):
     r58(ctx, repo)
     r59(ctx, repo)
     r59_model_default(ctx, repo)
+    r59_dataset_layer(ctx, repo)
     r52(ctx, repo)
     x4 = r53(ctx, repo, m)
     r54(ctx, repo, m)
@@ -3189,6 +3323,27 @@ MUTANTS = [
      ('calccfg.get("emodulus viscosity model", "herold-2017")',
       'calccfg.get("emodulus viscosity model", "buyukurganci-2022")'),
      "R5.9"),
+    ("case B wrapper leaves the pixel size to the default", AFEM,
+     ('        px_um=mm.config["imaging"]["pixel size"],\n'
+      '        temperature=None,\n', '        temperature=None,\n'), "R5.9"),
+    ("known-media wrapper leaves the channel width to the default", AFEM,
+     ('        channel_width=mm.config["setup"]["channel width"],\n'
+      '        flow_rate=mm.config["setup"]["flow rate"],\n'
+      '        px_um=mm.config["imaging"]["pixel size"],\n'
+      '        temperature=temperature,\n',
+      '        flow_rate=mm.config["setup"]["flow rate"],\n'
+      '        px_um=mm.config["imaging"]["pixel size"],\n'
+      '        temperature=temperature,\n'), "R5.9"),
+    ("case B wrapper hard-codes the flow rate", AFEM,
+     ('        flow_rate=mm.config["setup"]["flow rate"],\n'
+      '        px_um=mm.config["imaging"]["pixel size"],\n'
+      '        temperature=None,\n',
+      '        flow_rate=0.16,\n'
+      '        px_um=mm.config["imaging"]["pixel size"],\n'
+      '        temperature=None,\n'), "R5.9"),
+    ("both wrappers drop the look-up table keyword", AFEM,
+     [('        lut_data=calccfg["emodulus lut"],\n', '', 1),
+      ('        lut_data=calccfg["emodulus lut"],\n', '')], "R5.9"),
     ("scale functions invert the inplace flag", SCALE,
      ("    copy = not inplace\n    if issubclass(area_um.dtype.type",
       "    copy = inplace\n    if issubclass(area_um.dtype.type"), "R5.1"),
@@ -3331,6 +3486,39 @@ MUTANTS = [
 ]
 
 TWINS = [
+    ("wrapper reads the set-up into locals and passes a keyword dict", AFEM,
+     ('    emod = features.emodulus.get_emodulus(\n'
+      '        area_um=mm["area_um"],\n'
+      '        deform=mm["deform"],\n'
+      '        medium=calccfg["emodulus viscosity"],\n'
+      '        channel_width=mm.config["setup"]["channel width"],\n'
+      '        flow_rate=mm.config["setup"]["flow rate"],\n'
+      '        px_um=mm.config["imaging"]["pixel size"],\n'
+      '        temperature=None,\n'
+      '        visc_model=None,\n'
+      '        lut_data=calccfg["emodulus lut"],\n'
+      '    )\n',
+      '    setup = mm.config["setup"]\n'
+      '    pixel_size = mm.config["imaging"]["pixel size"]\n'
+      '    kwargs = {"channel_width": setup["channel width"],\n'
+      '              "flow_rate": setup["flow rate"],\n'
+      '              "px_um": pixel_size,\n'
+      '              "lut_data": calccfg["emodulus lut"]}\n'
+      '    emod = features.emodulus.get_emodulus(\n'
+      '        mm["deform"], mm["area_um"],\n'
+      '        medium=calccfg["emodulus viscosity"],\n'
+      '        temperature=None,\n'
+      '        visc_model=None,\n'
+      '        **kwargs)\n')),
+    ("known-media wrapper with reordered keywords and a config alias", AFEM,
+     ('        channel_width=mm.config["setup"]["channel width"],\n'
+      '        flow_rate=mm.config["setup"]["flow rate"],\n'
+      '        px_um=mm.config["imaging"]["pixel size"],\n'
+      '        temperature=temperature,\n',
+      '        px_um=mm.config["imaging"]["pixel size"],\n'
+      '        temperature=temperature,\n'
+      '        flow_rate=mm.config["setup"]["flow rate"],\n'
+      '        channel_width=mm.config["setup"]["channel width"],\n')),
     ("internal LUT listing cached without bound", LOAD,
      ("@functools.lru_cache()\ndef get_internal_lut_names_dict():",
       "@functools.lru_cache(maxsize=None)\n"
